@@ -65,6 +65,7 @@ type c06State struct {
 	swamp   string
 	base    int64 // unix ns; client-side relative times are base+offset
 	server  map[int64]bool
+	sorted   bool    // case attribute sorted=1: claim replies are listed by key (their order is C30's subject)
 	opStarts []int64 // wall-clock start of every request of the case (not wait / close / restart / compact)
 	dead    bool // a request hung in this case
 	rigDead bool
@@ -1032,10 +1033,13 @@ func c06Run(in *bufio.Scanner, w *bufio.Writer) {
 				continue
 			}
 			roots = append(roots, s.rig.Root)
-			s.caseNo, s.kind, s.dead = f[1], "mem", false
+			s.caseNo, s.kind, s.dead, s.sorted = f[1], "mem", false, false
 			for _, a := range f[2:] {
 				if k, v, ok := strings.Cut(a, "="); ok && k == "kind" {
 					s.kind = v
+				}
+				if a == "sorted=1" {
+					s.sorted = true
 				}
 			}
 			s.swamp = name.New().Sanctuary(c06Sanctuary(s.kind)).Realm("r" + s.runTag).Swamp("c" + s.caseNo).Get()
@@ -1172,6 +1176,11 @@ func c06Run(in *bufio.Scanner, w *bufio.Writer) {
 		select {
 		case r := <-res:
 			r = c06LongRunRe.ReplaceAllStringFunc(r, func(m string) string { return "x@" + strconv.Itoa(len(m)) })
+			if s.sorted && (f[0] == "shiftexp" || f[0] == "patchexp") && strings.HasPrefix(r, f[0]+" ") {
+				items := strings.Split(r, " ")
+				sort.Strings(items[1:])
+				r = strings.Join(items, " ")
+			}
 			fmt.Fprintln(w, r)
 		case <-time.After(HxScale(c06TimeoutOf(f[0]))):
 			fmt.Fprintln(w, "hang")
